@@ -214,6 +214,9 @@ func emptyStream(r *vh.Rng, n int, cv *vh.Cases, sum *vh.Summary, id *int) {
 			t = g.randStruct(r.Intn(2))
 		case 1:
 			t = reflect.TypeOf(FixOmit{})
+			if r.Chance(1, 2) {
+				t = bigTypes[r.Intn(len(bigTypes))] // values larger than 1024 bytes
+			}
 		default:
 			t = g.leaf()
 		}
@@ -349,8 +352,9 @@ func encStream(r *vh.Rng, n int, cv *vh.Cases, sum *vh.Summary, id *int) {
 		quirks := r.Chance(1, 4)
 		if r.Chance(1, 6) {
 			// the omitempty-focused corpus, with the memory shapes the emptiness tests treat differently
-			rt = []reflect.Type{reflect.TypeOf(FixOmit{}), reflect.TypeOf(FixOmitArr{}), reflect.TypeOf(FixOwnInfo{})}[r.Intn(3)]
-			quirks = true
+			rt = []reflect.Type{reflect.TypeOf(FixOmit{}), reflect.TypeOf(FixOmitArr{}), reflect.TypeOf(FixOwnInfo{}),
+				reflect.TypeOf(FixBig{}), reflect.TypeOf(FixBigArr{}), reflect.TypeOf(FixBigAll{})}[r.Intn(6)]
+			quirks = rt.NumField() > 5 || r.Bool()
 		}
 		v := reflect.New(rt).Elem()
 		fillVal(r, v, valOpts{quirks: quirks, iface: true}, 0)
